@@ -32,7 +32,9 @@ VARIABLES
   \* @type: Bool;
   dir,
   \* @type: Int -> Bool;
-  dseen
+  dseen,
+  \* @type: Int -> (Str -> Str);
+  memo
 
 Procs == {1, 2}
 Exprs == {"e1", "e2", "e3"}
@@ -64,6 +66,7 @@ TypeInv ==
   /\ woff \in [Procs -> 0..NChunks]
   /\ calls \in 0..MaxCalls /\ crashes \in 0..MaxCrashes
   /\ dir \in BOOLEAN /\ dseen \in [Procs -> BOOLEAN]
+  /\ memo = [p \in Procs |-> [k \in Keys |-> None]]     \* (nothing is ever remembered by the intended algorithm)
 
 \* structure of the file system: only allocated inodes are linked or open; a key file that is a cache
 \* entry is complete and stored under the key of its expression; an inode reachable through a key name
